@@ -159,8 +159,10 @@ def process_results(check, obs, known):
                     check.violations.append((ob.name, path, fmt_model(ob, model)))
                     continue
                 path = write_replay(check, ob, model, calls, "not reproduced pre=%r post=%r" % (pv, qv))
-                check.inconclusive.append("%s: solver model %s does not reproduce natively (pre=%r post=%r); "
-                                          "encoder or oracle error, see %s" % (ob.name, fmt_model(ob, model), pv, qv, path))
+                why = ("the counterexample is for the width-reduced re-interpretation of the IR and does not lift to full width"
+                       if getattr(ob, "reinterpreted", False) else "encoder or oracle error")
+                check.inconclusive.append("%s: solver model %s does not reproduce natively (pre=%r post=%r); %s, see %s" % (
+                    ob.name, fmt_model(ob, model), pv, qv, why, path))
                 continue
             if st == "lowering-failed":
                 # a compile-time verdict (the compiler's, not the solver's): the kernel line itself is ill-formed
